@@ -463,7 +463,7 @@ func (pb *alPlanBuilder) table(t alTable) int {
 func (pb *alPlanBuilder) call(t int, a, b []byte) {
 	pb.p.Cases = append(pb.p.Cases, alCase{Op: "global", T: t, A: ints(a), B: ints(b)})
 	tb := &pb.p.Tables[t]
-	if tb.Kind != "seeded" || alLocalDomain(tb) {
+	if tb.Kind != "seeded" || alLocalDomain(tb) || pb.prop == "C09" { // (C09: zero gap-open, gap scores of either sign)
 		pb.p.Cases = append(pb.p.Cases, alCase{Op: "local", T: t, A: ints(a), B: ints(b)})
 	}
 }
@@ -798,6 +798,17 @@ func buildAlignPlan(prop string) (*alPlan, error) {
 				}
 			}
 			t := pb.table(tb)
+			// every byte value a sequence may hold (0..254; 255 is the gap), twice each, against itself shifted and against a shuffle
+			{
+				var all []byte
+				for x := 0; x < 255; x++ {
+					all = append(all, byte(x), byte(x))
+				}
+				sh := append([]byte{}, all...)
+				r.Shuffle(len(sh), func(i, j int) { sh[i], sh[j] = sh[j], sh[i] })
+				pb.call(t, all, append(append([]byte{}, all[3:]...), all[:3]...))
+				pb.call(t, all[:300], sh[:280])
+			}
 			ls := []byte("acgtACGTn-")
 			for k := 0; k < 10*rmult; k++ {
 				a, b := alRelatedPair(r, ls, 30)
